@@ -1605,4 +1605,55 @@ def rowRaised {α} : Res (Option α) → Bool
   | .error _ => true
   | _ => false
 
+/-! ## Phase 6: iteration element by element (early consumer stop, abandoned iterators, the order in which a failing cell raises)
+
+`iter(row)` of a dense view is a lazy pipeline of generators: `LazyDense._enc_all`, the generator expression of `EncodeDense.__iter__` over
+`zip(self._encoders, self._row)`, `itertools.compress(self._row, self._sel)` (KeepDense), `chain(islice(row, ind), islice(row, ind+1, None))`
+(DropOne: TWO independent iterations of the inner row, the second one skipping — and thereby evaluating — the first `ind+1` elements).
+`DRow.stream` is the outcome of each `next()` of that pipeline, in order; a consumer sees the values up to the first raising element. -/
+
+/-- `itertools.compress(data, selectors)` over lazily produced data: the datum is pulled BEFORE the selector, so a raising datum raises whatever its
+selector says, and nothing is pulled once the selectors are used up -/
+def compressS : List (Res Val) → List Bool → List (Res Val)
+  | [], _ => []
+  | .error e :: _, _ => [.error e]
+  | .ok _ :: _, [] => []
+  | .ok x :: xs, b :: bs => if b then .ok x :: compressS xs bs else compressS xs bs
+
+/-- `e(v)` for a `v` that is itself the outcome of the inner `next()` -/
+def bindRes (f : Val → Res Val) : Res Val → Res Val
+  | .ok x => f x
+  | .error e => .error e
+
+/-- `islice(row, ind+1, None)` of a second iteration, appended to the first `ind` elements: skipping evaluates element `ind` -/
+def dropOneS (s : List (Res Val)) (ind : Nat) : List (Res Val) :=
+  s.take ind ++ (match s.drop ind with | [] => [] | .error e :: _ => [.error e] | .ok _ :: t => t)
+
+/-- the outcome of every `next()` on `iter(row)`, in order -/
+def DRow.stream : DRow → List (Res Val)
+  | .plain v => v.map .ok
+  | .lazy c enc _ _ =>
+    match enc with
+    | none => c.get.map .ok
+    | some [] => c.get.map .ok
+    | some es => List.zipWith lazyApply es c.get
+  | .head r _ => stream r
+  | .encode r es => List.zipWith (fun e x => bindRes e.apply x) es (stream r)
+  | .keep r _ _ sel _ _ => compressS (stream r) sel
+  | .label r _ _ => stream r
+  | .dropOne r ind => dropOneS (stream r) ind
+
+/-- a consumer that calls `next()` at most `n` times and then abandons the iterator: the values it got, and the exception that ended it (if any) -/
+def pull : Nat → List (Res Val) → List Val × Option Err
+  | 0, _ => ([], none)
+  | _ + 1, [] => ([], none)
+  | n + 1, .ok x :: t => ((pull n t).1.cons x, (pull n t).2)
+  | _ + 1, .error e :: _ => ([], some e)
+
+/-- `list(islice(iter(row), n))` -/
+def DRow.takeN (r : DRow) (n : Nat) : List Val × Option Err := pull n r.stream
+
+/-- the partial iteration loads the base row (`_load_or_get`); nothing else of the row object changes -/
+def stepTake (r : DRow) (n : Nat) : (List Val × Option Err) × DRow := (r.takeN n, r.touch)
+
 end Coba.C13
